@@ -387,11 +387,20 @@ func ParseDomainPattern(pattern string) (isWildcard bool, baseDomain string) {
 	return false, pattern
 }
 
+// MaxRoutePatternLen is the longest domain pattern, forward routing key or
+// forward target that a route advertisement can carry (one-byte length prefix).
+const MaxRoutePatternLen = 255
+
 // ValidateDomainPattern validates a domain pattern.
 // Returns nil if valid, or an error describing the issue.
 func ValidateDomainPattern(pattern string) error {
 	if pattern == "" {
 		return fmt.Errorf("empty domain pattern")
+	}
+
+	// Route advertisements carry the pattern with a one-byte length
+	if len(pattern) > MaxRoutePatternLen {
+		return fmt.Errorf("domain pattern too long (%d bytes, max %d)", len(pattern), MaxRoutePatternLen)
 	}
 
 	isWildcard, baseDomain := ParseDomainPattern(pattern)
